@@ -1348,6 +1348,81 @@ async fn system_scenarios(out: &mut Out) {
             bad.push(format!("GET {}: A {:?}, B {:?}", k, ga, gb));
         }
     }
+    // multi-key DEL by PLACEMENT of its keys on the 16 front-end shards: all on one shard, all on
+    // different shards, two on one shard + one elsewhere; with and without a key that was never
+    // written.  Whatever the placement, every named key must end deleted on the node that accepted
+    // the DEL AND on its peer (each key ships its own tombstone), the reply counts the keys that existed.
+    {
+        let shard_of = |key: &str| {
+            use std::hash::{Hash, Hasher};
+            let mut h = std::collections::hash_map::DefaultHasher::new();
+            key.hash(&mut h);
+            (h.finish() as usize) % 16
+        };
+        let pool: Vec<String> = (0..400).map(|i| format!("p{}", i)).collect();
+        let s0 = shard_of(&pool[0]);
+        let same: Vec<String> = pool.iter().filter(|k| shard_of(k) == s0).take(3).cloned().collect();
+        let mut distinct: Vec<String> = Vec::new();
+        for k in &pool {
+            if distinct.iter().all(|d| shard_of(d) != shard_of(k)) {
+                distinct.push(k.clone());
+            }
+            if distinct.len() == 3 {
+                break;
+            }
+        }
+        let other = pool.iter().find(|k| shard_of(k) != s0).cloned().unwrap_or("zz9".into());
+        let mixed = vec![same[0].clone(), other.clone(), same[1].clone()];
+        for (placement, ks) in [("same-shard", same.clone()), ("distinct-shards", distinct.clone()), ("mixed", mixed.clone()), ("same-shard-pair", same[..2].to_vec())] {
+            for with_missing in [false, true] {
+                let (a, arx) = mk(5);
+                let (b, _brx) = mk(6);
+                let keep = "keepme".to_string();
+                let mut h3: Vec<String> = Vec::new();
+                for (i, k) in ks.iter().chain(std::iter::once(&keep)).enumerate() {
+                    a.execute(Command::set(k.clone(), s(&format!("{}", i)))).await;
+                    h3.push(format!("A: SET {} {} (shard {})", k, i, shard_of(k)));
+                }
+                b.apply_remote_deltas(arx.drain());
+                let mut del = ks.clone();
+                if with_missing {
+                    // a key nobody wrote, placed on the first key's shard, in the middle of the list
+                    let miss = pool.iter().rev().find(|k| shard_of(k) == shard_of(&ks[0]) && !ks.contains(k)).cloned().unwrap_or("never".into());
+                    del.insert(1, miss);
+                }
+                let r = a.execute(Command::Del(del.clone())).await;
+                h3.push(format!("A: DEL {} -> {:?}", del.join(" "), r));
+                b.apply_remote_deltas(arx.drain());
+                h3.push("B: everything A shipped is applied".into());
+                let mut bad3 = Vec::new();
+                if !matches!(r, RespValue::Integer(n) if n == ks.len() as i64) {
+                    bad3.push(format!("reply {:?}, expected {}", r, ks.len()));
+                }
+                let nil = |x: &RespValue| matches!(x, RespValue::BulkString(None));
+                for k in &ks {
+                    let ga = a.execute(Command::Get(k.clone())).await;
+                    let gb = b.execute(Command::Get(k.clone())).await;
+                    if !nil(&ga) || !nil(&gb) {
+                        bad3.push(format!("GET {}: A {:?}, B {:?} (both must be nil)", k, ga, gb));
+                    }
+                }
+                let ka = a.execute(Command::Get(keep.clone())).await;
+                let kb = b.execute(Command::Get(keep.clone())).await;
+                if nil(&ka) || nil(&kb) {
+                    bad3.push(format!("GET {}: A {:?}, B {:?} (must survive)", keep, ka, kb));
+                }
+                out.count(&format!("b:system:multi-key-del:{}{}", placement, if with_missing { "+missing" } else { "" }));
+                out.case(&format!("B:system:multi-key-del:{}:{}", placement, with_missing), true);
+                if !bad3.is_empty() {
+                    out.violation(
+                        &format!("C06:front-end:multi-key-del-not-replicated:{}", placement),
+                        "a multi-key DEL accepted by a ReplicatedShardedState does not end with every named key deleted on that node and on its peer (each key must ship its own tombstone, wherever its keys are placed on the front-end shards)",
+                        json!({"history": h3, "what": bad3}),
+                    );
+                }
+            }
+        }
+    }
     // multi-key MSET / MGET / EXISTS whose keys live on different shards of the 16 (forwarded by the
     // C05 builder): `execute` routes them whole to the FIRST key's shard (get_primary_key), the
     // per-key fan-out of execute_global is never reached
